@@ -400,7 +400,7 @@ pub fn run(rep: &Report) {
     core_fn_plane(rep);
     ins_plane(rep, 40, true, 0xC03);
     let thorough = rep.thorough();
-    random_fn_plane(rep, if thorough { 200_000_000 } else { 1_000_000 });
+    random_fn_plane(rep, if thorough { 3_000_000_000 } else { 4_000_000 });
     ins_plane(rep, if thorough { 5000 } else { 80 }, false, rep.seed ^ 0xD1);
     crate::insplane::edge_plane(rep, if thorough { 300_000 } else { 6000 }, rep.seed ^ 0xE3, false, "C03 at the end of memory", "ins", &|rng| {
         let bl: Vec<&str> = crate::c01::BLABELS.iter().map(|x| x.0).collect();
